@@ -17,6 +17,7 @@ package dirhash
 //@     ensures err == nil ==> rc != nil && CONTENT(rc) == FILECONTENT(name)
 //@   end
 //@   let SORTED = files @before loop 0
+//@   autoframe
 //@   modifies ghost.WRITTEN, io.LimitedReader.N
 //@   # the caller's slice is not modified (a copy is sorted): semantic frame on []string
 //@   ensures [C19] h1_formula: result1 == nil ==> result0 == "h1:" + B64(SHA(SUMM(SORTED, len(SORTED))))
